@@ -373,7 +373,7 @@ func (s *skelWriter) attrsOf(n ast.Node, roles map[*ast.CommentGroup]string) nod
 		s.sel[v.Sel] = true
 		a.name = v.Sel.Name
 		a.ty = s.ty(s.info.TypeOf(v.X))
-		a.obj = s.obj(s.info.ObjectOf(v.Sel))
+		a.obj = s.obj(s.used(v.Sel))
 	case *ast.IndexExpr:
 		a.kind = "IndexExpr"
 	case *ast.StarExpr:
@@ -383,7 +383,7 @@ func (s *skelWriter) attrsOf(n ast.Node, roles map[*ast.CommentGroup]string) nod
 		a.flag = s.sel[v]
 		a.name = v.Name
 		a.ty = s.ty(s.info.TypeOf(v))
-		a.obj = s.obj(s.info.ObjectOf(v))
+		a.obj = s.obj(s.used(v))
 	case *ast.CompositeLit:
 		a.kind = "CompositeLit"
 		a.ty = s.ty(s.info.TypeOf(v))
@@ -593,4 +593,13 @@ func namePkg(m *types.Func) string {
 		return ""
 	}
 	return m.Pkg().Path()
+}
+
+// used: the object an identifier refers to, as the checkers look it up - Uses first (the name of an embedded field both
+// defines the field and uses the type), then ObjectOf
+func (s *skelWriter) used(id *ast.Ident) types.Object {
+	if o := s.info.Uses[id]; o != nil {
+		return o
+	}
+	return s.info.ObjectOf(id)
 }
